@@ -3,8 +3,10 @@
 # Copyright (c) IPython Development Team.
 # Distributed under the terms of the Modified BSD License.
 
+import codecs
 import io
 import json
+import locale
 import os
 import sys
 
@@ -73,8 +75,16 @@ def main_merge(args):
         nbformat.write(merged, mfn)
         logger.info("Merge result written to %s", mfn)
     else:
-        # Write merged notebook to terminal
-        nbformat.write(merged, sys.stdout)
+        # Write merged notebook to terminal. If the terminal encoding cannot
+        # represent every character, the stream's error handler would emit
+        # escapes that are not JSON: let the JSON encoder escape instead.
+        enc = (getattr(sys.stdout, 'encoding', None) or
+               locale.getpreferredencoding() or 'ascii')
+        try:
+            utf8 = codecs.lookup(enc).name == 'utf-8'
+        except LookupError:
+            utf8 = False
+        nbformat.write(merged, sys.stdout, ensure_ascii=not utf8)
     return returncode
 
 
